@@ -13,7 +13,6 @@ import (
 	"os"
 	"os/exec"
 	"runtime"
-	"runtime/debug"
 	"sort"
 	"strings"
 	"sync"
@@ -131,7 +130,8 @@ func runImpl(op Op) string {
 // runChild re-executes this binary for a single op, so that a fatal runtime error (stack overflow, out of memory)
 // is observed instead of killing the harness.
 func runChild(op Op) string {
-	cmd := exec.Command(os.Args[0], "single", op.Kind, hex.EncodeToString(op.Expr), op.Data)
+	cmd := exec.Command(os.Args[0], "single")
+	cmd.Stdin = strings.NewReader(op.Kind + "\n" + hex.EncodeToString(op.Expr) + "\n" + op.Data + "\n")
 	cmd.Env = append(os.Environ(), "GOMEMLIMIT=2GiB")
 	var outb strings.Builder
 	cmd.Stdout = &outb
@@ -269,10 +269,16 @@ func main() {
 	}
 	switch os.Args[1] {
 	case "single":
-		// jmx single KIND HEX DATA
-		debug.SetMaxStack(256 << 20)
-		expr, _ := hex.DecodeString(os.Args[3])
-		op := Op{Kind: os.Args[2], Expr: expr, Data: os.Args[4]}
+		// jmx single: three lines on stdin — kind, hex of the expression, document
+		opTimeout = 100 * time.Second // the parent enforces the deadline
+		rd := bufio.NewReaderSize(os.Stdin, 1<<20)
+		line := func() string {
+			s, _ := rd.ReadString('\n')
+			return strings.TrimRight(s, "\n")
+		}
+		kind := line()
+		expr, _ := hex.DecodeString(line())
+		op := Op{Kind: kind, Expr: expr, Data: line()}
 		fmt.Println(runImpl(op))
 	case "check":
 		check(os.Args[2:])
